@@ -16,9 +16,9 @@ func init() {
 		Decides: "shape conditions without which some history necessarily diverges from the abstract index: Update records both the id and the document, Delete only the id, Insert only the document, and the public Writer methods reach index.Writer.Batch through exactly these mutators; every segmentSnapshot literal that carries a segment of the current root over into a new root carries that root element's deleted set along (directly, or OR-ed with the new obsoletions; a nil deleted set only behind the IsEmpty test or on the edge where the old set is nil); no field or element of a Snapshot / segmentSnapshot is written unless the object was allocated in the same function (or is owned by such an object) and has not been published yet; a field value that may be stored is handed to an analyzer only as a fresh copy (in-place token filters would otherwise rewrite the stored bytes).",
 		NotCovered: "that DocsMatchingTerms and the segment library compute the right document sets; counts and stored bytes; behaviour for a batch naming the same id twice.",
 	})
-	registerRule(&RuleInfo{ID: "C01.R1", Title: "Update = delete + insert, Delete = delete, Insert = insert", Floor: 7, Run: ruleC01R1,
+	registerRule(&RuleInfo{ID: "C01.R1", Title: "Update = delete + insert, Delete = delete, Insert = insert", Floor: 4, Run: ruleC01R1,
 		Covers: "data flow of the three index.Batch mutators and of the public bluge.Writer/Batch wrappers"})
-	registerRule(&RuleInfo{ID: "C01.R2", Title: "deleted sets are carried over into every new root", Floor: 8, Run: ruleC01R2,
+	registerRule(&RuleInfo{ID: "C01.R2", Title: "deleted sets are carried over into every new root", Floor: 5, Run: ruleC01R2,
 		Covers: "every composite literal of index.segmentSnapshot, classified by the origin of its id"})
 	registerRule(&RuleInfo{ID: "C01.R3", Title: "published snapshots are frozen (copy-on-write)", Floor: 60, Run: ruleC01R3,
 		Covers: "every store to a field or element of index.Snapshot / index.segmentSnapshot"})
